@@ -87,6 +87,13 @@ func memberUnconstrained(m jv) bool {
 				if typeMentions(jobj{e}, "integer") {
 					return false
 				}
+			case "if":
+				// an `if` without then/else adds nothing
+				_, t := x.get("then")
+				_, el := x.get("else")
+				if t || el {
+					return false
+				}
 			case "$comment", "default", "examples", "then", "else", "$defs", "allOf", "anyOf", "oneOf":
 				// a combinator over members without constraints adds none either
 			case "uniqueItems":
@@ -203,6 +210,16 @@ func hasCloser(s jv) bool {
 
 func hasSecondConjunct(s jv) bool {
 	return anySchemaObj(s, func(o jobj) bool {
+		// a closed struct as (part of) the value of a pattern constraint
+		if pp, ok := o.get("patternProperties"); ok {
+			if pats, ok := pp.(jobj); ok {
+				for _, q := range pats {
+					if hasCloser(q.v) {
+						return true
+					}
+				}
+			}
+		}
 		if _, ok := o.get("$ref"); ok {
 			return true
 		}
@@ -445,7 +462,24 @@ func hasRecursiveRefUnderValidator(s jv) bool {
 		}
 		return false
 	}
-	return walk(s, false, false)
+	if walk(s, false, false) {
+		return true
+	}
+	// `$ref: "#"` anywhere while the root itself carries a validator keyword: every level of the
+	// recursion re-enters that validator
+	if root, ok := s.(jobj); ok {
+		rootValidator := false
+		for _, e := range root {
+			switch e.k {
+			case "contains", "not", "allOf", "anyOf", "oneOf", "if":
+				rootValidator = true
+			}
+		}
+		if rootValidator && anySchemaObj(s, func(o jobj) bool { r, ok := o.get("$ref"); return ok && r == "#" }) {
+			return true
+		}
+	}
+	return false
 }
 
 func c13ClassImpl(s jv, inst jv, flags string) string {
